@@ -124,9 +124,14 @@ func checkGroup(c *c19Case, alone [][]string) string {
 			}
 		}()
 		shapes := make([]string, n)
+		okBefore := make([]bool, n)
+		opts := core.VerifyOpts{Values: true, Relations: true, Dead: true}
 		for j := range sims {
 			if j != i {
 				shapes[j] = core.Shape(sims[j].B.W)
+				// a world that already deviates from its model (another property's finding ended its
+				// history) cannot be blamed on this step
+				okBefore[j] = !sims[j].Done() && sims[j].B.Verify(sims[j].M, opts) == nil
 			}
 		}
 		sims[i].Apply(c.Worlds[i].Ops[next[i]])
@@ -138,7 +143,10 @@ func checkGroup(c *c19Case, alone [][]string) string {
 			if s := core.Shape(sims[j].B.W); s != shapes[j] {
 				return fmt.Sprintf("an operation on world %d (%s) changed the hidden state of world %d", i, c.Worlds[i].Ops[next[i]-1].Describe(), j)
 			}
-			if err := sims[j].B.Verify(sims[j].M, core.VerifyOpts{Values: true, Relations: true, Dead: true}); err != nil {
+			if !okBefore[j] {
+				continue
+			}
+			if err := sims[j].B.Verify(sims[j].M, opts); err != nil {
 				return fmt.Sprintf("an operation on world %d (%s) changed world %d: %v", i, c.Worlds[i].Ops[next[i]-1].Describe(), j, err)
 			}
 		}
